@@ -160,12 +160,20 @@ func c16fasta(recs []c16rec) []byte {
 
 func c16parse(data []byte) ([]c16rec, error) {
 	var out []c16rec
+	var seq strings.Builder
+	flush := func() {
+		if len(out) > 0 {
+			out[len(out)-1].Seq = seq.String()
+		}
+		seq.Reset()
+	}
 	for _, line := range strings.Split(string(data), "\n") {
 		line = strings.TrimRight(line, "\r")
 		if line == "" {
 			continue
 		}
 		if line[0] == '>' {
+			flush()
 			h := line[1:]
 			id, rest := h, ""
 			if i := strings.IndexAny(h, " \t"); i >= 0 {
@@ -190,9 +198,44 @@ func c16parse(data []byte) ([]c16rec, error) {
 		if len(out) == 0 {
 			return nil, fmt.Errorf("sequence line before any header: %q", line)
 		}
-		out[len(out)-1].Seq += strings.TrimSpace(line)
+		seq.WriteString(strings.TrimSpace(line))
 	}
+	flush()
 	return out, nil
+}
+
+// c16short abridges a record (the filler records of the multi-chunk input are > 1 MiB) for messages
+func c16short(s string) string {
+	if len(s) > 400 {
+		return fmt.Sprintf("%s...[%d bytes]...%s", s[:200], len(s), s[len(s)-60:])
+	}
+	return s
+}
+
+// The multi-chunk input: the sequence readers cut a file into chunks of 1 MiB, one batch per chunk, whatever
+// --batch-size says: the 14 records alone always travel as ONE batch until something re-batches them. Three
+// copies of them (identifiers suffixed b, c) separated by two filler records of 1.1 MiB give a stream of
+// several batches of unequal sizes to the workers (--max-cpu) and classes that exceed --batch-size by
+// two batches and more.
+func c16bigInput() []c16rec {
+	var out []c16rec
+	filler := func(id string, unit string, k1 string) c16rec {
+		return c16rec{ID: id, Ann: map[string]any{"count": float64(2), "k1": k1, "taxid": float64(7)}, Seq: strings.Repeat(unit, 1100*1024/len(unit))}
+	}
+	for copyNo, suffix := range []string{"", "b", "c"} {
+		for _, r := range c16input {
+			m := r.clone()
+			m.ID += suffix
+			out = append(out, m)
+		}
+		if copyNo == 0 {
+			out = append(out, filler("big1", "acgt", "aa"))
+		}
+		if copyNo == 1 {
+			out = append(out, filler("big2", "ttgca", "zz"))
+		}
+	}
+	return out
 }
 
 // ---------------------------------------------------------------- three-valued logic
@@ -230,6 +273,16 @@ func c16and(a, b c16tv) c16tv {
 		return c16U
 	}
 	return c16T
+}
+
+func c16or(a, b c16tv) c16tv {
+	if a == c16T || b == c16T {
+		return c16T
+	}
+	if a == c16U || b == c16U {
+		return c16U
+	}
+	return c16F
 }
 
 func c16lift(mode string, a, b c16tv) c16tv {
@@ -325,25 +378,119 @@ type c16atom struct {
 	pred   func(r *c16rec) c16tv
 	edit   string // obiannotate edit group
 	taxo   bool
-	mod    string // "v" | "sd"
+	mod    string // "v" | "sd" | "apfwd" (--only-forward) | "aperr" (--pattern-error 1)
 	vac    bool   // criterion that no record can fail (-c 1): the code treats it as "no criterion"
+	orGrp  string // atoms of one group are alternatives (several -r: the taxon lies in ONE of the clades)
+	approx string // --approx-pattern: evaluated by c16approx with the error budget / strand modifiers of the case
+	rep    string // repeatable option this atom is an occurrence of (all occurrences together = a repeat case)
 }
 
-func c16reAtom(name, family, opt, pat string, get func(r *c16rec) (string, bool), ci bool) c16atom {
-	p := pat
-	if ci {
-		p = "(?i)" + pat
-	}
-	re := regexp.MustCompile(p)
+// c16reAtom: a regular-expression criterion. ci says what the option's OWN description (obigrep --help)
+// states about the case of the pattern: T = "case insensitive", F = "case sensitive", U = says nothing. When
+// the two readings differ on a record, the description decides; with no statement the record is unconstrained.
+func c16reAtom(name, family, opt, pat string, get func(r *c16rec) (string, bool), ci c16tv) c16atom {
+	reS := regexp.MustCompile(pat)
+	reI := regexp.MustCompile("(?i)" + pat)
 	return c16atom{name: name, family: family, args: []string{opt, pat}, pred: func(r *c16rec) c16tv {
 		s, ok := get(r)
-		return c16b(ok && re.MatchString(s))
+		if !ok {
+			return c16F
+		}
+		ms, mi := reS.MatchString(s), reI.MatchString(s)
+		if ms == mi {
+			return c16b(ms)
+		}
+		switch ci {
+		case c16T:
+			return c16b(mi)
+		case c16F:
+			return c16b(ms)
+		}
+		return c16U
 	}}
+}
+
+// c16helpCase reads, in the --help text of the binary, what the description of --<long> says about case.
+func c16helpCase(help, long string) c16tv {
+	for _, l := range strings.Split(help, "\n") {
+		t := strings.TrimSpace(l)
+		if !strings.HasPrefix(t, "--"+long+"|") && !strings.HasPrefix(t, "--"+long+" ") {
+			continue
+		}
+		switch {
+		case strings.Contains(t, "case insensitive"):
+			return c16T
+		case strings.Contains(t, "case sensitive"):
+			return c16F
+		}
+		return c16U
+	}
+	return c16U
+}
+
+func c16rcIupac(s string) string {
+	m := map[byte]byte{'a': 't', 'c': 'g', 'g': 'c', 't': 'a'}
+	b := []byte(s)
+	o := make([]byte, len(b))
+	for i := range b {
+		c, ok := m[b[len(b)-1-i]]
+		if !ok {
+			c = 'n'
+		}
+		o[i] = c
+	}
+	return string(o)
+}
+
+// c16approx: --approx-pattern (plain acgt pattern, substitutions only): true iff some window of the sequence
+// (or, both strands, of its reverse complement) is within maxErr mismatches of the pattern. A window whose
+// verdict depends on how an ambiguous base of the SEQUENCE is scored leaves the record unconstrained.
+func c16approx(pat, seq string, maxErr int, both bool) c16tv {
+	one := func(sq string) c16tv {
+		res := c16F
+		for i := 0; i+len(pat) <= len(sq); i++ {
+			d, amb := 0, 0
+			for j := 0; j < len(pat); j++ {
+				c := sq[i+j]
+				switch {
+				case c != 'a' && c != 'c' && c != 'g' && c != 't':
+					amb++
+				case c != pat[j]:
+					d++
+				}
+			}
+			switch {
+			case d+amb <= maxErr:
+				return c16T
+			case d <= maxErr:
+				res = c16U
+			}
+		}
+		return res
+	}
+	v := one(seq)
+	if both {
+		v = c16or(v, one(c16rcIupac(seq)))
+	}
+	return v
 }
 
 var c16idList = []string{"r01", " s06 ", "t12", "zz", "r03.2", "t13.2", "s07"}
 
-func c16grepAtoms() []c16atom {
+// c16idFile: the --id-list file: the 7 entries above in the middle of 6000 identifiers that select nothing
+func c16idFile() []byte {
+	var b bytes.Buffer
+	for i := 0; i < 3000; i++ {
+		fmt.Fprintf(&b, "zz%05d\n", i)
+	}
+	b.WriteString(strings.Join(c16idList, "\n") + "\n")
+	for i := 3000; i < 6000; i++ {
+		fmt.Fprintf(&b, "r01%05d\n", i) // an entry that merely starts with a selected identifier selects nothing
+	}
+	return b.Bytes()
+}
+
+func c16grepAtoms(help string) []c16atom {
 	var out []c16atom
 	for _, n := range []int{9, 10, 11} {
 		n := n
@@ -365,19 +512,39 @@ func c16grepAtoms() []c16atom {
 	key := func(k string) func(r *c16rec) (string, bool) {
 		return func(r *c16rec) (string, bool) { return r.str(k) }
 	}
+	ciI, ciD, ciS, ciA := c16helpCase(help, "identifier"), c16helpCase(help, "definition"), c16helpCase(help, "sequence"), c16helpCase(help, "attribute")
+	rep := func(a c16atom, r string) c16atom { a.rep = r; return a }
+	fam := func(a c16atom, f string) c16atom { a.family = f; return a }
+	// every pattern option: 3 occurrences (the builders chain the 2nd, 3rd ... in a loop of their own); the
+	// data is lower case, the "uc" atoms carry an upper-case pattern: what they select is what the option's
+	// own description says about case
 	out = append(out,
-		c16reAtom("I", "identifier", "-I", "^r", id, false),
-		c16reAtom("D", "definition", "-D", "def", def, false),
-		c16reAtom("s", "sequence", "-s", "^[acgt]+$", seq, true),
+		rep(c16reAtom("I", "identifier", "-I", "^r", id, ciI), "I"),
+		rep(c16reAtom("I2", "identifier", "-I", "1", id, ciI), "I"),
+		rep(c16reAtom("I3", "identifier", "-I", "0", id, ciI), "I"),
+		fam(c16reAtom("Iuc", "", "-I", "^R", id, ciI), "identifier(upper-case pattern)"),
+		rep(c16reAtom("D", "definition", "-D", "def", def, ciD), "D"),
+		rep(c16reAtom("D2", "definition", "-D", "a$", def, ciD), "D"),
+		rep(c16reAtom("D3", "definition", "-D", "^[a-z]+ ", def, ciD), "D"),
+		fam(c16reAtom("Duc", "", "-D", "DEF", def, ciD), "definition(upper-case pattern)"),
+		rep(c16reAtom("s", "sequence", "-s", "^[acgt]+$", seq, ciS), "s"),
+		rep(fam(c16reAtom("s2", "", "-s", "CGTAC$", seq, ciS), "sequence(upper-case pattern)"), "s"),
+		rep(c16reAtom("s3", "sequence", "-s", "^a", seq, ciS), "s"),
 	)
-	a1 := c16reAtom("a1", "attribute", "-a", "^a", key("k1"), false)
-	a1.args = []string{"-a", "k1=^a"}
-	a2 := c16reAtom("a2", "attribute", "-a", "x1", key("k2"), false)
-	a2.args = []string{"-a", "k2=x1"}
-	out = append(out, a1, a2)
-	for i, k := range []string{"k1", "k2"} {
+	attr := func(name, k, pat, family string) c16atom {
+		a := c16reAtom(name, family, "-a", pat, key(k), ciA)
+		a.args = []string{"-a", k + "=" + pat}
+		return a
+	}
+	out = append(out,
+		rep(attr("a1", "k1", "^a", "attribute"), "a"),
+		rep(attr("a2", "k2", "x1", "attribute"), "a"),
+		rep(attr("a3", "count", "^[23]$", "attribute"), "a"), // a numeric value, matched through its decimal form
+		attr("auc", "k1", "^A", "attribute(upper-case pattern)"),
+	)
+	for i, k := range []string{"k1", "k2", "k3"} {
 		k := k
-		out = append(out, c16atom{name: fmt.Sprintf("A%d", i+1), family: "has-attribute", args: []string{"-A", k},
+		out = append(out, c16atom{name: fmt.Sprintf("A%d", i+1), family: "has-attribute", rep: "A", args: []string{"-A", k},
 			pred: func(r *c16rec) c16tv { _, ok := r.Ann[k]; return c16b(ok) }})
 	}
 	ids := map[string]bool{}
@@ -387,30 +554,51 @@ func c16grepAtoms() []c16atom {
 	out = append(out, c16atom{name: "idlist", family: "id-list", slot: "idlist", args: []string{"--id-list", "{D}/ids.txt"},
 		pred: func(r *c16rec) c16tv { return c16b(ids[r.ID]) }})
 	out = append(out,
-		c16atom{name: "p1", family: "predicate", args: []string{"-p", "sequence.Count() >= 2 || sequence.Len() < 6"},
+		c16atom{name: "p1", family: "predicate", rep: "p", args: []string{"-p", "sequence.Count() >= 2 || sequence.Len() < 6"},
 			pred: func(r *c16rec) c16tv { return c16b(r.count() >= 2 || len(r.Seq) < 6) }},
-		c16atom{name: "p2", family: "predicate", args: []string{"-p", `contains(annotations,"k2")`},
+		c16atom{name: "p2", family: "predicate", rep: "p", args: []string{"-p", `contains(annotations,"k2")`},
 			pred: func(r *c16rec) c16tv { _, ok := r.Ann["k2"]; return c16b(ok) }},
+		c16atom{name: "p3", family: "predicate", rep: "p", args: []string{"-p", "sequence.Len() != 9"},
+			pred: func(r *c16rec) c16tv { return c16b(len(r.Seq) != 9) }},
 	)
-	out = append(out,
-		c16atom{name: "tr", family: "restrict-to-taxon", taxo: true, args: []string{"-r", "2"},
+	// taxonomic options, 3 occurrences each: several -r = the taxon lies in ONE of the clades (orGrp), several
+	// -i = in none of them, several --require-rank = every rank is defined
+	for i, clade := range []int{2, 6, 7} {
+		clade := clade
+		out = append(out, c16atom{name: []string{"tr", "tr2", "tr3"}[i], family: "restrict-to-taxon", taxo: true, rep: "tr", orGrp: "tr",
+			args: []string{"-r", strconv.Itoa(clade)},
 			pred: func(r *c16rec) c16tv {
 				t, ok := c16taxid(r)
-				return c16b(ok && c16inClade(t, 2))
-			}},
-		c16atom{name: "ti", family: "ignore-taxon", taxo: true, args: []string{"-i", "3"},
+				return c16b(ok && c16inClade(t, clade))
+			}})
+	}
+	for i, clade := range []int{3, 6, 4} {
+		clade := clade
+		out = append(out, c16atom{name: []string{"ti", "ti2", "ti3"}[i], family: "ignore-taxon", taxo: true, rep: "ti",
+			args: []string{"-i", strconv.Itoa(clade)},
 			pred: func(r *c16rec) c16tv {
 				t, ok := c16taxid(r)
 				if !ok {
 					return c16U // record without taxid under ignore-taxon: not constrained
 				}
-				return c16b(!c16inClade(t, 3))
-			}},
-		c16atom{name: "trk", family: "require-rank", taxo: true, args: []string{"--require-rank", "genus"},
+				return c16b(!c16inClade(t, clade))
+			}})
+	}
+	for i, rank := range []string{"genus", "family", "species"} {
+		rank := rank
+		out = append(out, c16atom{name: []string{"trk", "trk2", "trk3"}[i], family: "require-rank", taxo: true, rep: "trk",
+			args: []string{"--require-rank", rank},
 			pred: func(r *c16rec) c16tv {
 				t, ok := c16taxid(r)
-				return c16b(ok && c16hasRank(t, "genus"))
-			}},
+				return c16b(ok && c16hasRank(t, rank))
+			}})
+	}
+	// --approx-pattern (2 occurrences; the second one is found on the reverse strand only) and its modifiers
+	out = append(out,
+		c16atom{name: "ap1", family: "approx-pattern", rep: "ap", args: []string{"--approx-pattern", "tacgta"}, approx: "tacgta"},
+		c16atom{name: "ap2", family: "approx-pattern", rep: "ap", args: []string{"--approx-pattern", "ccaa"}, approx: "ccaa"},
+		c16atom{name: "apfwd", family: "only-forward", slot: "apfwd", args: []string{"--only-forward"}, mod: "apfwd"},
+		c16atom{name: "aperr", family: "pattern-error", slot: "aperr", args: []string{"--pattern-error", "1"}, mod: "aperr"},
 	)
 	out = append(out,
 		c16atom{name: "v", family: "inverse-match", slot: "v", args: []string{"-v"}, mod: "v"},
@@ -423,16 +611,19 @@ const c16setIdExpr = `printf("%s_x%d",sequence.Id(),sequence.Len())`
 
 func c16annotAtoms() []c16atom {
 	return []c16atom{
-		{name: "S1", family: "set-tag", args: []string{"-S", "n1=1"}, edit: "S1"},
-		{name: "S2", family: "set-tag", args: []string{"-S", `n2="two"`}, edit: "S2"},
-		{name: "S3", family: "set-tag", args: []string{"-S", "n3=sequence.Len()"}, edit: "S3"},
-		{name: "S4", family: "set-tag", args: []string{"-S", `k1="zz"`}, edit: "S4"},
-		{name: "del1", family: "delete-tag", args: []string{"--delete-tag", "k1"}, edit: "del:k1"},
-		{name: "del2", family: "delete-tag", args: []string{"--delete-tag", "count"}, edit: "del:count"},
-		{name: "R1", family: "rename-tag", args: []string{"-R", "z1=k1"}, edit: "ren:z1=k1"},
-		{name: "R2", family: "rename-tag", args: []string{"-R", "z2=k2"}, edit: "ren:z2=k2"},
-		{name: "k1", family: "keep", args: []string{"-k", "k1"}, edit: "keep:k1"},
-		{name: "k2", family: "keep", args: []string{"-k", "count"}, edit: "keep:count"},
+		{name: "S1", family: "set-tag", rep: "S", args: []string{"-S", "n1=1"}, edit: "S1"},
+		{name: "S2", family: "set-tag", rep: "S", args: []string{"-S", `n2="two"`}, edit: "S2"},
+		{name: "S3", family: "set-tag", rep: "S", args: []string{"-S", "n3=sequence.Len()"}, edit: "S3"},
+		{name: "S4", family: "set-tag", rep: "S", args: []string{"-S", `k1="zz"`}, edit: "S4"},
+		{name: "del1", family: "delete-tag", rep: "del", args: []string{"--delete-tag", "k1"}, edit: "del:k1"},
+		{name: "del2", family: "delete-tag", rep: "del", args: []string{"--delete-tag", "count"}, edit: "del:count"},
+		{name: "del3", family: "delete-tag", rep: "del", args: []string{"--delete-tag", "k2"}, edit: "del:k2"},
+		{name: "R1", family: "rename-tag", rep: "R", args: []string{"-R", "z1=k1"}, edit: "ren:z1=k1"},
+		{name: "R2", family: "rename-tag", rep: "R", args: []string{"-R", "z2=k2"}, edit: "ren:z2=k2"},
+		{name: "R3", family: "rename-tag", rep: "R", args: []string{"-R", "z3=k3"}, edit: "ren:z3=k3"},
+		{name: "k1", family: "keep", rep: "k", args: []string{"-k", "k1"}, edit: "keep:k1"},
+		{name: "k2", family: "keep", rep: "k", args: []string{"-k", "count"}, edit: "keep:count"},
+		{name: "k3", family: "keep", rep: "k", args: []string{"-k", "k2"}, edit: "keep:k2"},
 		{name: "clear", family: "clear", slot: "clear", args: []string{"--clear"}, edit: "clear"},
 		{name: "setid", family: "set-identifier", slot: "setid", args: []string{"--set-identifier", c16setIdExpr}, edit: "setid"},
 		{name: "length", family: "length", slot: "length", args: []string{"--length"}, edit: "length"},
@@ -445,6 +636,8 @@ func c16annotAtoms() []c16atom {
 			pred: func(r *c16rec) c16tv { _, ok := r.Ann["k1"]; return c16b(ok) }},
 		{name: "gc", family: "criterion", slot: "gc", args: []string{"-c", "2"},
 			pred: func(r *c16rec) c16tv { return c16b(r.count() >= 2) }},
+		// -v: the edits go to the records that do NOT satisfy the criteria (no effect without a criterion)
+		{name: "gv", family: "inverse-match", slot: "gv", args: []string{"-v"}, mod: "v"},
 	}
 }
 
@@ -466,10 +659,11 @@ type c16case struct {
 	CPU    int      `json:"cpu"`
 	Batch  int      `json:"batch"`
 	Paired string   `json:"paired,omitempty"`
+	Input  string   `json:"input,omitempty"` // "" = the 14 records, "big" = the multi-chunk input
 }
 
 func (c c16case) id() string {
-	return fmt.Sprintf("%s|%s|%d|%d|%s", c.Tool, strings.Join(c.Atoms, ","), c.CPU, c.Batch, c.Paired)
+	return fmt.Sprintf("%s|%s|%d|%d|%s|%s", c.Tool, strings.Join(c.Atoms, ","), c.CPU, c.Batch, c.Paired, c.Input)
 }
 
 type c16verdict struct {
@@ -497,6 +691,27 @@ type c16env struct {
 	mates   []c16rec
 	procs   int64
 	mxReads []c16rec
+	mxMates []c16rec
+	big     []c16rec
+}
+
+func (e *c16env) input(c c16case) []c16rec {
+	if c.Input == "big" {
+		return e.big
+	}
+	return c16input
+}
+
+// inFile: the input file of a case (ord 1 = records in reverse order)
+func (e *c16env) inFile(c c16case, ord int) string {
+	name := "in"
+	if c.Input == "big" {
+		name = "inbig"
+	}
+	if ord == 1 {
+		name += "_rev"
+	}
+	return filepath.Join(e.data, name+".fasta")
 }
 
 func (e *c16env) subst(args []string, out string) []string {
@@ -647,12 +862,17 @@ func (e *c16env) evalGrep(c c16case) c16verdict {
 	}
 	var crit []c16atom
 	inv, sd, taxo := false, false, false
+	apErr, apBoth := 0, true
 	for _, a := range atoms {
 		switch {
 		case a.mod == "v":
 			inv = true
 		case a.mod == "sd":
 			sd = true
+		case a.mod == "apfwd":
+			apBoth = false
+		case a.mod == "aperr":
+			apErr = 1
 		default:
 			crit = append(crit, a)
 		}
@@ -670,13 +890,31 @@ func (e *c16env) evalGrep(c c16case) c16verdict {
 		// statement presupposes a criterion to invert or to oppose between mates
 		return c16verdict{Skipped: true}
 	}
+	c16input := e.input(c) // (shadows the 14 records: the case may run on the multi-chunk input)
 	n := len(c16input)
 	want := make([]c16tv, n)
 	alt := make([]c16tv, n) // -v applied to each read before the pair lifting (what the code does)
 	evalCrit := func(r *c16rec) c16tv {
 		v := c16T
+		alt := map[string]c16tv{}
 		for _, a := range crit {
-			v = c16and(v, a.pred(r))
+			var x c16tv
+			if a.approx != "" {
+				x = c16approx(a.approx, r.Seq, apErr, apBoth)
+			} else {
+				x = a.pred(r)
+			}
+			if a.orGrp != "" {
+				if y, ok := alt[a.orGrp]; ok {
+					x = c16or(x, y)
+				}
+				alt[a.orGrp] = x
+				continue
+			}
+			v = c16and(v, x)
+		}
+		for _, x := range alt {
+			v = c16and(v, x)
 		}
 		return v
 	}
@@ -717,7 +955,7 @@ func (e *c16env) evalGrep(c c16case) c16verdict {
 		args = append(args, "--paired-with", filepath.Join(e.data, "mate.fasta"), "--paired-mode", c.Paired,
 			"-o", filepath.Join(dir, "out.fasta"))
 	}
-	args = append(args, filepath.Join(e.data, "in.fasta"))
+	args = append(args, e.inFile(c, 0))
 	p := e.exec(dir, "obigrep", args)
 	v := c16verdict{Ran: true, NonTriv: nT > 0 && nF > 0}
 	cmdline := "obigrep " + strings.Join(args, " ")
@@ -784,7 +1022,7 @@ func (e *c16env) evalGrep(c c16case) c16verdict {
 				return "content", fmt.Sprintf("%s holds a record %q that is not in the input", what, r.ID)
 			}
 			if r.canon() != c16input[i].canon() {
-				return "content", fmt.Sprintf("%s: record altered: got %s want %s", what, r.canon(), c16input[i].canon())
+				return "content", fmt.Sprintf("%s: record altered: got %s want %s", what, c16short(r.canon()), c16short(c16input[i].canon()))
 			}
 			occ[i]++
 			if paired {
@@ -940,14 +1178,14 @@ func c16edits(atoms []c16atom) []c16edit {
 	if has["setid"] {
 		out = append(out, simple(func(r *c16rec) { r.ID = fmt.Sprintf("%s_x%d", r.ID, len(r.Seq)) }))
 	}
-	for _, k := range []string{"k1", "count"} {
+	for _, k := range []string{"k1", "count", "k2"} {
 		k := k
 		if has["del:"+k] {
 			out = append(out, simple(func(r *c16rec) { delete(r.Ann, k) }))
 		}
 	}
 	keep := map[string]bool{}
-	for _, k := range []string{"k1", "count"} {
+	for _, k := range []string{"k1", "count", "k2"} {
 		if has["keep:"+k] {
 			keep[k] = true
 		}
@@ -961,7 +1199,7 @@ func c16edits(atoms []c16atom) []c16edit {
 			}
 		}))
 	}
-	for _, p := range [][2]string{{"z1", "k1"}, {"z2", "k2"}} {
+	for _, p := range [][2]string{{"z1", "k1"}, {"z2", "k2"}, {"z3", "k3"}} {
 		p := p
 		if has["ren:"+p[0]+"="+p[1]] {
 			out = append(out, simple(func(r *c16rec) {
